@@ -49,6 +49,9 @@ def one_op(t, view, k, op, out, prefix, forks=None):
                     return '%d:%d:' % (a, b) + ','.join('1' if x else '0' for x in items)
                 return '%d:%d:' % (a, b) + ','.join(to_val(t[1], x) for x in items)
             out.append('%d.%s=%s' % (k, prefix, status(sl)))
+        elif o == 'obj':
+            import json
+            out.append('%d.%s=%s' % (k, prefix, status(lambda: json.dumps(view.to_obj(), separators=(',', ':')))))
         elif o == 'childroot':
             def childroot():
                 # the child VIEW is obtained and asked for its root: nothing below the child's root is needed
@@ -56,14 +59,15 @@ def one_op(t, view, k, op, out, prefix, forks=None):
                 ct, c = child_of(t, view, int(op[1]))
                 return c.hash_tree_root().hex()
             out.append('%d.%s=%s' % (k, prefix, status(childroot)))
-        elif o == 'iterk':
+        elif o in ('iterk', 'roiterk'):
             def iterk():
-                # a consumer that stops early: only the first items of a plain iteration are asked for
+                # a consumer that stops early: only the first items of a plain (or read-only) iteration are asked for
+                # (each item is converted as it arrives: the read-only iterator may hand out one re-used view)
                 import itertools
-                items = list(itertools.islice(iter(view), int(op[1])))
+                it = iter(view) if o == 'iterk' else view.readonly_iter()
                 if kind(t) in ('bv', 'bl'):
-                    return ','.join('1' if x else '0' for x in items)
-                return ','.join(to_val(t[1], x) for x in items)
+                    return ','.join('1' if x else '0' for x in itertools.islice(it, int(op[1])))
+                return ','.join(to_val(t[1], x) for x in itertools.islice(it, int(op[1])))
             out.append('%d.%s=%s' % (k, prefix, status(iterk)))
         elif o == 'sub':
             def sub():
